@@ -601,6 +601,10 @@ func genStr(t *rapid.T, kind string, o GenOpts) V {
 		if !o.BigStrLen && n > 300 {
 			n = 256
 		}
+		if o.BigStrLen && rapid.IntRange(0, 60).Draw(t, "mib") == 9 {
+			// around and past one and two MiB (buffers that are filled piecewise)
+			n = rapid.SampledFrom([]int{1048575, 1048576, 1048577, 1500001, 2097153, 3000000}).Draw(t, "miblen")
+		}
 		return V{K: kind, S: rapid.SliceOfN(rapid.Byte(), 1, 5).Draw(t, "pat"), N: n}
 	}
 }
